@@ -3,6 +3,8 @@
 Probes g_probes;
 Coverage g_cover;
 SpecSkinny g_spec;
+volatile int g_trace_gate = 0;
+volatile int g_trace_op = -1;
 
 namespace {
 
@@ -268,6 +270,7 @@ struct Exec {
         int ret = -1; bool ok;
         uint64_t stackpat = w_stack ^ (uint64_t)(i + 1) * 0x9E3779B97F4A7C15ULL;
         ++R.lib_calls;
+        g_trace_op = i; g_trace_gate = 1;
         switch (o.code) {
         case OP_INIT:
             if ((o.flags & F_JUNKREGS) || cfg.use_junk_regs) ok = GUARDED_CALL_DIRTY(stackpat, ret = (int)call_with_junk_regs(lib_init_fn(k), obj, stackpat));
@@ -286,6 +289,7 @@ struct Exec {
         case OP_SWAP: ok = GUARDED_CALL_DIRTY(stackpat, lib_swap(k, obj)); break;
         default: ok = true; break;
         }
+        g_trace_gate = 0;
         for (auto &t : g_cpu.traps) log.ev("cpu", t.kind, t.leaf, t.subleaf);
         ob.ret = ret;
         if (!ok) {
@@ -499,7 +503,7 @@ struct Exec {
             unsigned batch = is_ctr(k) ? ctr_batch_bytes(k, backend_before) : 0;
             unsigned offc = batch ? (ksoff_before >= bs ? 0 : 1) : 0;
             unsigned szc = o.size == 0 ? 0 : o.size < bs ? 1 : o.size == bs ? 2 : o.size % bs ? 3 : 4;
-            uint64_t h = hash_comb(hash_comb(hash_comb((uint64_t)k << 8 | o.code, (uint64_t)life_before << 8 | keyed_before << 4 | (backend_before & 15)), (uint64_t)(exp & 3) << 16 | offc << 8 | szc), (uint64_t)(o.flags & 15) << 8 | (o.failalloc ? 1 : 0));
+            uint64_t h = hash_comb(hash_comb(hash_comb((uint64_t)k << 8 | o.code, (uint64_t)life_before << 8 | keyed_before << 4 | (backend_before & 15)), (uint64_t)(exp & 3) << 16 | offc << 8 | szc), (uint64_t)(o.flags & 15) << 8 | (o.failalloc ? 1 : 0) | (o.code == OP_INIT ? (uint64_t)(o.cpu + 1) << 16 | (uint64_t)o.prefill << 12 : 0));
             g_cover.add(h, true);
         }
         if (cfg.trace) tr(strf("#%d %s  -> %d%s%s", i, op_brief(plan, o).c_str(), ret, ob.out.empty() ? "" : (" out=" + hex(ob.out.data(), std::min<size_t>(ob.out.size(), 24)) + (ob.out.size() > 24 ? ".." : "")).c_str(), is_obj(k) ? strf("  [%s,be=%d]", LIFE_NAME[st.life], st.backend).c_str() : ""));
